@@ -4,11 +4,11 @@
 (* the specification.  A trace is one object (its residue sequence) and    *)
 (* the queries made on it with their replies.                              *)
 (***************************************************************************)
-EXTENDS TraceBase, Patterning, Composition, Profiles
+EXTENDS TraceBase, Patterning, Composition, Profiles, ObjectFunctions
 VARIABLES t, l, verdict
 vars == <<t, l, verdict>>
 
-SetOf(sq) == {sq[i] : i \in 1..Len(sq)}
+SetOf(sq) == SetOfSeq(sq)
 
 \* sqrt table supplied by the harness, verified here before use:
 \* SqrtTab[d]^2 <= d * 10^30 < (SqrtTab[d] + 1)^2
@@ -92,6 +92,27 @@ JudgeComplexity(seq, e) ==
           ELSE IF e.type = "WF" /\ k >= 2 /\ \E j \in 1..K : ~RClose(RFromFx(e.rv[j]), WFSum(win(j), letters, k, RZero)) THEN "wf-entropy"
           ELSE OK
 
+\* ---- C16: values derived from the phosphosites (e.sites: the list get_phosphosites() returned) ----
+JudgePhos(seq, e) ==
+  CASE e.q = "phosphoseq" -> IF e.rs = PhosphoSeq(seq, e.sites) THEN OK ELSE "phosphosequence"
+    [] e.q = "stysites" -> IF e.rs = SelectSeq([i \in 1..Len(seq) |-> i], LAMBDA i : seq[i] \in Phosphorylatable) THEN OK ELSE "phosphorylatable-sites"
+    [] e.q = "kappaphos" -> LET j == KappaJudge(RFromFx(e.r), ChargePattern(PhosphoSeq(seq, e.sites))) IN
+                            IF j = OK \/ IsKnown(j) THEN j ELSE "kappa-after-phosphorylation"
+    [] e.q = "phosdist" ->
+         LET n == Len(e.sites) IN
+         IF Len(e.entries) # Pow2(n) THEN "distribution-size"
+         ELSE IF \E k \in 1..Len(e.entries) : e.entries[k].status # [j \in 1..n |-> Bit(k - 1, j, n)] THEN "distribution-order"
+         ELSE IF \E k \in 1..Len(e.entries) :
+                   LET sub == SubstSeq(seq, e.sites, k - 1)  en == e.entries[k] IN
+                   \/ ~(KappaJudge(RFromFx(en.kappa), ChargePattern(sub)) = OK \/ IsKnown(KappaJudge(RFromFx(en.kappa), ChargePattern(sub))))
+                   \/ ~RClose(RFromFx(en.fplus), Param("fraction_positive", sub))
+                   \/ ~RClose(RFromFx(en.fminus), Param("fraction_negative", sub))
+                   \/ ~RClose(RFromFx(en.fcr), Param("FCR", sub))
+                   \/ ~RClose(RFromFx(en.ncpr), Param("NCPR", sub))
+                   \/ ~RClose(RFromFx(en.hyd), Param("mean_hydropathy", sub))
+              THEN "distribution-values"
+         ELSE OK
+
 Judge(seq, e) ==
   LET x == ChargePattern(seq)
       r == RFromFx(e.r)
@@ -112,6 +133,7 @@ Judge(seq, e) ==
        [] e.q \in {"linear", "lincomp"} -> JudgeLinear(seq, e)
        [] e.q \in {"alphabetsize", "alphabetmap", "reduce", "userreduce"} -> JudgeAlphabet(seq, e)
        [] e.q = "complexity" -> JudgeComplexity(seq, e)
+       [] e.q \in {"phosphoseq", "stysites", "kappaphos", "phosdist"} -> JudgePhos(seq, e)
        [] e.q = "param"  -> IF e.name \notin ScalarParams THEN "machinery:unknown-param"
                             ELSE IF RClose(r, Param(e.name, seq)) THEN OK ELSE "param-" \o e.name
        [] e.q = "aafrac" -> IF RClose(r, AAFraction(seq, e.aa)) THEN OK ELSE "amino-acid-fraction"
